@@ -319,6 +319,20 @@ class Check:
         self.notes = []
         self.stats = {}
         self.search_evals = 0
+        self.search_t0 = time.time()
+        self.search_budget = 1e9
+
+    def start_search(self, broken):
+        """time box of the property-level search: it is a bounded effort, enlarged when an obligation broke"""
+        self.search_t0 = time.time()
+        self.search_budget = {('quick', False): 120, ('quick', True): 300, ('thorough', False): 1200, ('thorough', True): 2400}[(self.tier, bool(broken))]
+
+    def over(self):
+        if time.time() - self.search_t0 > self.search_budget:
+            if 'search stopped at its time box' not in self.notes:
+                self.notes.append('search stopped at its time box')
+            return True
+        return False
 
     def oblige(self, name, kind, ok, detail=''):
         self.obligations.append({'name': name, 'kind': kind, 'ok': bool(ok), 'detail': str(detail)[:1500]})
